@@ -4,6 +4,7 @@ package main
 
 import (
 	"fmt"
+	"os"
 	"go/ast"
 	"go/constant"
 	"go/token"
@@ -91,6 +92,7 @@ type Exec struct {
 	steps      int
 	gasMeters  map[int]GasV
 	dynCtxArgs []ssa.Value
+	localTypes map[string]types.Type
 	nextGas    int
 	epochs     int
 }
@@ -190,8 +192,8 @@ func (x *Exec) constVal(c *ssa.Const) Value {
 	if c.Value == nil {
 		// zero value / nil
 		switch t.Underlying().(type) {
-		case *types.Pointer, *types.Signature:
-			return TV{T: x.enc.Zero(t), Ty: t}
+		case *types.Signature:
+			return NilFnV{}
 		}
 		return TV{T: x.enc.Zero(t), Ty: t}
 	}
@@ -275,6 +277,17 @@ func (x *Exec) objField(st *State, o ObjV, i int) Value {
 		path = o.Path // flatten embedded keepers
 	}
 	ft := f.Type()
+	if namedPath(ft) == "cosmossdk.io/core/address.Codec" {
+		// address codecs are identified by a small integer: 1 account, 2 validator, 3 consensus
+		id := "1"
+		switch {
+		case strings.Contains(strings.ToLower(f.Name()), "validator"):
+			id = "2"
+		case strings.Contains(strings.ToLower(f.Name()), "consensus"):
+			id = "3"
+		}
+		return TV{T: id, Ty: ft}
+	}
 	if isObjectType(ft) {
 		return ObjV{Path: path, Ty: ft}
 	}
@@ -318,7 +331,7 @@ func isObjectType(t types.Type) bool {
 		}
 		_ = it
 		switch {
-		case strings.HasSuffix(p, "Keeper"), strings.HasSuffix(p, "address.Codec"), strings.HasSuffix(p, "codec.Codec"),
+		case strings.HasSuffix(p, "Keeper"), strings.HasSuffix(p, "codec.Codec"),
 			strings.HasSuffix(p, "BridgeHook"), strings.HasSuffix(p, "store.KVStoreService"), strings.HasSuffix(p, "log.Logger"),
 			strings.HasSuffix(p, "GasMeter"), strings.HasSuffix(p, "ValidatorStore"), strings.HasSuffix(p, "PermKeeper"),
 			strings.HasSuffix(p, "ChannelKeeper"), strings.HasSuffix(p, "codec.BinaryCodec"), strings.HasSuffix(p, "VoteAggregator"),
@@ -549,6 +562,9 @@ func (x *Exec) loadGlobal(st *State, g *ssa.Global) Value {
 	if isObjectType(ty) {
 		return ObjV{Path: name, Ty: ty}
 	}
+	if _, ok := ty.Underlying().(*types.Signature); ok {
+		return ObjV{Path: name, Ty: ty}
+	}
 	// map / slice / other package-level data: symbolic constant (treated as immutable; writes are rejected)
 	x.enc.DeclConst(name, x.enc.Sort(ty))
 	return TV{T: name, Ty: ty}
@@ -658,6 +674,9 @@ func (x *Exec) execFrom(st *State, fr *Frame, blk *ssa.BasicBlock, idx int, prev
 			c := term(x.val(fr, st, ins.Cond))
 			var outs []Outcome
 			thenB, elseB := blk.Succs[0], blk.Succs[1]
+			if os.Getenv("GOVC_DEBUG") != "" && fr.isTop {
+				fmt.Fprintf(os.Stderr, "if at block %d %s: %s\n", blk.Index, x.pos(ins.Pos()), trunc(c, 100))
+			}
 			if c != "false" {
 				s1 := st.Clone()
 				s1.Assume(c)
@@ -702,6 +721,9 @@ func (x *Exec) execFrom(st *State, fr *Frame, blk *ssa.BasicBlock, idx int, prev
 			fr.defers = append(fr.defers, d)
 		case *ssa.Call:
 			results := x.call(st, fr, ins)
+			if len(results) == 0 && os.Getenv("GOVC_DEBUG") != "" {
+				fmt.Fprintf(os.Stderr, "call with no outcome: %s at %s (unverified=%q)\n", ins.String(), x.pos(ins.Pos()), x.unverified)
+			}
 			if len(results) == 1 && !results[0].panic {
 				st = results[0].st
 				fr.env[ins] = one(results[0].vals)
@@ -1225,6 +1247,22 @@ func (x *Exec) bcmp(a, b string) string {
 }
 
 func (x *Exec) equal(st *State, a, b Value, ty types.Type) string {
+	// function values: only nil-ness is comparable
+	_, an := a.(NilFnV)
+	_, bn := b.(NilFnV)
+	if an || bn {
+		if an && bn {
+			return "true"
+		}
+		other := a
+		if an {
+			other = b
+		}
+		switch other.(type) {
+		case BoundV, CloV, FnV, ObjV:
+			return "false"
+		}
+	}
 	// nil comparisons
 	if isNilConst(a) {
 		a, b = b, a
